@@ -81,6 +81,14 @@ type State struct {
 	lockSnap   map[string]map[string]Term // monitor key+owner -> heap at the last Lock
 	lastLock   map[string]Term            // heap right after the most recent monitor Lock
 	loopFrames []string                   // "loopOrd|heapvar": automatic frame invariants in force
+	joins      []*pendingJoin             // goroutines spawned with a WaitGroup debt, not yet joined
+}
+
+type pendingJoin struct {
+	wg   Term
+	tgt  callTarget
+	sig  *types.Signature
+	args *callArgs
 }
 
 type arrInfo struct {
@@ -91,7 +99,7 @@ type arrInfo struct {
 
 func (st *State) clone() *State {
 	n := &State{fx: st.fx, alloc: st.alloc, dead: st.dead, entryHeap: st.entryHeap, callDepth: st.callDepth,
-		deferStack: st.deferStack, dargs: st.dargs, decrVals: st.decrVals, retSite: st.retSite, callRes: st.callRes, lockSnap: st.lockSnap, lastLock: st.lastLock, loopFrames: st.loopFrames}
+		deferStack: st.deferStack, dargs: st.dargs, decrVals: st.decrVals, retSite: st.retSite, callRes: st.callRes, lockSnap: st.lockSnap, lastLock: st.lastLock, loopFrames: st.loopFrames, joins: st.joins}
 	n.vals = make(map[ssa.Value]Term, len(st.vals))
 	for k, v := range st.vals {
 		n.vals[k] = v
@@ -139,9 +147,71 @@ func (st *State) assume(t Term) {
 // heapInit returns the initial (function-entry) version of a heap variable.
 func (st *State) heapInit(name, srt string) Term {
 	n := sanitize(name) + "@0"
-	st.fx.declare(n, fmt.Sprintf("(declare-const %s %s)", n, srt))
+	if !st.fx.declared[n] {
+		st.fx.declare(n, fmt.Sprintf("(declare-const %s %s)", n, srt))
+		st.fx.heapSorts[name] = srt
+		if f := st.fx.heapWF(name, srt, n, "alloc@0"); f != "" {
+			st.fx.declare("alloc@0", "(declare-const alloc@0 Int)")
+			st.fx.axiom(f)
+		}
+	}
 	st.fx.heapSorts[name] = srt
 	return n
+}
+
+// heapWF: every reference stored in the heap variable denotes an object that
+// exists (was allocated no later than `bound`). True of every real heap.
+func (fx *FnExec) heapWF(name, srt, arr, bound string) Term {
+	kindOfSort := func(es string) string {
+		real := fx.realSort(es)
+		if real == es {
+			return ""
+		}
+		switch real {
+		case "Int":
+			return "ref"
+		case "Slice":
+			return "slice"
+		case "Iface":
+			return "iface"
+		}
+		return ""
+	}
+	bnd := func(kind, v string) string {
+		switch kind {
+		case "ref":
+			return "(<= " + v + " " + bound + ")"
+		case "slice":
+			return "(<= (sptr " + v + ") " + bound + ")"
+		case "iface":
+			return "(<= (ival " + v + ") " + bound + ")"
+		}
+		return ""
+	}
+	switch {
+	case strings.HasPrefix(name, "H."):
+		k := heapFieldKinds[name]
+		if k == "" {
+			return ""
+		}
+		return "(forall ((q.w Int)) (! " + bnd(k, "(select "+arr+" q.w)") + " :pattern ((select " + arr + " q.w))))"
+	case strings.HasPrefix(name, "Mem."):
+		es := arrayElemSort(arrayElemSort(srt))
+		k := kindOfSort(es)
+		if k == "" {
+			return ""
+		}
+		return "(forall ((q.w Int) (q.x Int)) (! " + bnd(k, "(select (select "+arr+" q.w) q.x)") + " :pattern ((select (select " + arr + " q.w) q.x))))"
+	case strings.HasPrefix(name, "MapVal."):
+		inner := arrayElemSort(srt)
+		ks := arrayIndexSort(inner)
+		k := kindOfSort(arrayElemSort(inner))
+		if k == "" {
+			return ""
+		}
+		return "(forall ((q.w Int) (q.x " + ks + ")) (! " + bnd(k, "(select (select "+arr+" q.w) q.x)") + " :pattern ((select (select " + arr + " q.w) q.x))))"
+	}
+	return ""
 }
 
 func (st *State) heapGet(name, srt string) Term {
